@@ -206,7 +206,7 @@ fn escape_is_map1(lo: u32, hi: u32) {
     std::mem::forget(input);
 }
 
-//@ harness: o2_2_escape_is_map1_bmp1 props=C02,C08 tier=quick obl=O2.2 timeout=900 mem=14
+//@ harness: o2_2_escape_is_map1_bmp1 props=C02,C08 tier=quick obl=O2.2 timeout=800 mem=26
 //@ desc: escape_html_text on every 1-char string with c < U+0800 (1- and 2-byte chars: all markup characters, C0/C1 controls, Latin) equals replace_html_char(c): the text leaf is built from the per-character escaper and nothing else
 //@ encodes: fragment::text::escape_html_text, fragment::text::replace_html_char
 #[kani::proof]
@@ -216,7 +216,7 @@ fn o2_2_escape_is_map1_bmp1() {
     escape_is_map1(0, 0x7FF);
 }
 
-//@ harness: o2_2_escape_is_map1_bmp3 props=C02,C08 tier=quick obl=O2.2 timeout=900 mem=14
+//@ harness: o2_2_escape_is_map1_bmp3 props=C02,C08 tier=quick obl=O2.2 timeout=800 mem=26
 //@ desc: as o2_2_escape_is_map1_bmp1 for every 3-byte char U+0800..U+FFFF (incl. U+FFFE/U+FFFF and CJK)
 //@ encodes: fragment::text::escape_html_text, fragment::text::replace_html_char
 #[kani::proof]
@@ -254,7 +254,7 @@ fn one_char_text(x: i32, y: i32, c: char) -> CellText {
     CellText::new(Cell::new(x, y), s)
 }
 
-//@ harness: o4_1_can_merge_1x1 props=C04 tier=quick obl=O4.1 timeout=900 mem=10
+//@ harness: o4_1_can_merge_1x1 props=C04 tier=quick obl=O4.1 timeout=800 mem=10
 //@ desc: two one-character texts (chars unrestricted, columns <= 1000, gap -4..4, rows symbolic): can_merge <=> same row and one starts at the display column where the other ends (width of a char = columns it occupies in the string buffer: 2 for double-width, else 1)
 //@ encodes: CellText::can_merge
 #[kani::proof]
@@ -286,7 +286,7 @@ fn o4_1_can_merge_1x1() {
     std::mem::forget(b);
 }
 
-//@ harness: o4_2_merge_start props=C04 tier=quick obl=O4.2 timeout=1200 mem=20
+//@ harness: o4_2_merge_start props=C04 tier=quick obl=O4.2 timeout=800 mem=20
 //@ desc: CellText::merge of two one-character texts on one row (chars unrestricted, gap -3..3, either call order): Some exactly when the texts occupy consecutive display columns, and the merged text starts at the smaller column of the same row; format! is stubbed (the concatenated content is NOT observed - outside the claim)
 //@ encodes: CellText::merge, CellText::can_merge
 #[kani::proof]
